@@ -67,6 +67,10 @@ def build_streams(rng, facts, name):
     nfill = rng.choice([3, 40, 100, 110, 125, 140])
     vals = rand_values(rng, nfill, -1, 1, zeros=0, signs=((1,) if nfill >= 100 else (1, -1)))
     rk = rng.choice(["pag", "pag", "dense", "sparse"])
+    # (the receiver's own values sit near index 0..+-500: an array-backed receiver is only used when the stream's bins are not tens of thousands
+    # of indexes away, which would make the run a test of array growth -- the model's arrays are lists)
+    far = max([abs(i) for i in list(st.pos.m) + list(st.neg.m)] or [0])
+    if rk == "dense" and far > 3000: rk = "sparse" if rng.random() < 0.5 else "pag"
     b.knew("rr", spec, rk, rk); b.knew("tw", spec, "sparse", "sparse")
     for v in vals: b.kadd("rr", v); b.kadd("tw", v)
     b.emit("kdecinto rr s", "ok"); b.emit("kdecinto tw s", "ok")
